@@ -372,7 +372,7 @@ def stepTok (dia : Dialect) (afterWs : Bool) (c : CU) (r : Str) (line col : Nat)
       if dia = .cif2 then pure (keyPeek .tkey .tvalue s.acc.reverse s.pos)
       else pure (mkTok .tvalue s.acc.reverse s.pos)
     else do
-      let s ← scanUnquoted dia r line col1 false [c] 0 true true      -- no BACK_UP here: offsets count from the next unit
+      let s ← scanUnquoted dia (c :: r) line (col1 - 1) false [] 0 true true   -- BACK_UP (since a4a1f62), as the default case
       finishUnquoted dia afterWs s.acc.reverse s.pos
   else do
     let s ← scanUnquoted dia (c :: r) line (col1 - 1) false [] 0 true true     -- BACK_UP
